@@ -45,8 +45,9 @@ Theorem C18_roundtrip_fixpoint : forall k v s s',
 Proof. exact roundtrip_fixpoint. Qed.
 Print Assumptions C18_roundtrip_fixpoint.
 
-(* InitChain on an export fails only if x/auth did not hand over a BaseAccount for an exported address *)
-Theorem C18_import_of_export_succeeds : forall k v s, consts_ok k ->
+(* InitChain on an export fails only if x/auth did not hand over a BaseAccount for an exported address (the fee-market
+   params of a reachable state are valid: part of the invariant wfb, C18_reachable_invariant) *)
+Theorem C18_import_of_export_succeeds : forall k v s, consts_ok k -> fm_valid (s_fm s) = true ->
   (forall g, In g (export_evm (s_evm s)) -> v_base_acct v (ga_addr g) = true) ->
   exists s', import k v (export k s) = Ok s'.
 Proof. exact import_export_total. Qed.
@@ -75,6 +76,35 @@ Theorem C18_roundtrip_feemarket : forall k v s s', consts_ok k ->
   import k v (export k s) = Ok s' -> s_fm s' = s_fm s.
 Proof. exact roundtrip_feemarket. Qed.
 Print Assumptions C18_roundtrip_feemarket.
+
+(* InitGenesis never alters the fee-market params it is given, for ALL values: integral or fractional min gas price
+   (carried as value * 10^18), base fee below, on or above trunc(min gas price), zero, huge.  No clamp, no rounding. *)
+Theorem C18_feemarket_import_identity : forall k v g s,
+  import k v g = Ok s -> s_fm s = g_fm g /\ fm_valid (g_fm g) = true.
+Proof.
+  intros k v g s H. unfold import in H.
+  destruct (import_accts v (Evm (g_evm_params g) [] [] []) (g_accounts g)); [|discriminate].
+  destruct (import_cpc k v g); [|discriminate].
+  destruct (import_fm (g_fm g)) as [f|] eqn:Ef; [|discriminate].
+  inversion H; subst s. cbn [s_fm]. exact (import_fm_id _ _ Ef).
+Qed.
+Print Assumptions C18_feemarket_import_identity.
+
+(* a document with a negative base fee or a negative min gas price is refused (SetParams validates) *)
+Theorem C18_import_rejects_invalid_feemarket : forall k v g, fm_valid (g_fm g) = false -> import k v g = Panic.
+Proof. exact import_fm_invalid. Qed.
+Print Assumptions C18_import_rejects_invalid_feemarket.
+
+(* over blocks: params set by governance (any valid value), then EndBlock with any outcome of the EIP-1559 formula:
+   the base fee the block leaves - max next trunc(min gas price), i.e. possibly sitting exactly on the floor of a
+   FRACTIONAL min gas price - is what the re-imported chain holds *)
+Theorem C18_feemarket_endblock_roundtrip : forall k v s f next s',
+  consts_ok k -> fm_valid f = true -> 0 <= next ->
+  import k v (export k (apply_op k v (apply_op k v s (OFm f)) (OEndBlock next))) = Ok s' ->
+  s_fm s' = Fm (Z.max next (fm_floor f)) (f_min_gas_price f) /\
+  fm_floor (s_fm s') <= f_base_fee (s_fm s') /\ fm_floor (s_fm s') = fm_floor f.
+Proof. exact feemarket_endblock_roundtrip. Qed.
+Print Assumptions C18_feemarket_endblock_roundtrip.
 
 (* cpc: FALSE of the faithful model (known findings C18/genesis/cpc-...) *)
 Definition C18_roundtrip_cpc_full : Prop := forall k v s s',
@@ -192,6 +222,19 @@ Example C18_example_history :
     c_allow (s_cpc (run k0 v0 ex_ops s0)) = [(akey 1 2, 500)] /\
     c_metas (s_cpc s') = [(100, Meta 2 22); (200, Meta 3 33)] /\ c_allow (s_cpc s') = [] /\ s_proofs s' = [].
 Proof. eexists. eexists. split; [vm_compute; reflexivity|]. split; [vm_compute; reflexivity|]. vm_compute. repeat split; reflexivity. Qed.
+
+(* min gas price 1000000000.5 set by governance, idle chain: EndBlock leaves the base fee on the floor 1000000000 and the
+   re-imported chain holds 1000000000 - not ceil(1000000000.5) = 1000000001 *)
+Example C18_example_fractional_min_gas_price :
+  let f := Fm 1000000007 (1000000000 * DEC + DEC / 2) in
+  fm_valid f = true /\ fm_floor f = 1000000000 /\
+  import k0 v0 (export k0 (run k0 v0 [OFm f; OEndBlock 875000006] w_proof)) =
+  Ok (St (Evm 0 [] [] []) (Fm 1000000000 (1000000000 * DEC + DEC / 2)) (Cpc 0 [(200, Meta 3 33)] [] []) []).
+Proof. vm_compute. repeat split; reflexivity. Qed.
+Example C18_example_invalid_feemarket_refused :
+  import k0 v0 (Gen 0 [] (Fm (-1) 0) 0 false false) = Panic /\ import k0 v0 (Gen 0 [] (Fm 0 (-1)) 0 false false) = Panic /\
+  import k0 v0 (Gen 0 [] (Fm 0 0) 0 false false) = Ok (St (Evm 0 [] [] []) (Fm 0 0) (Cpc 0 [(200, Meta 3 33)] [] []) []).
+Proof. vm_compute. repeat split; reflexivity. Qed.
 
 (* witnesses of the other known findings: ERC-20 precompile deployed by message, native ERC-20 deployed by the genesis
    flag (the exported flag is false), staking precompile deployed by message with its own symbol / decimals *)
